@@ -396,7 +396,11 @@ impl<'a, 'tcx> BodyCx<'a, 'tcx> {
                 format!("[\"bin\",\"{:?}\",{},{}]", op, self.operand(&ab.0), self.operand(&ab.1))
             }
             Rvalue::UnaryOp(op, a) => format!("[\"un\",\"{:?}\",{}]", op, self.operand(a)),
-            Rvalue::Discriminant(p) => format!("[\"disc\",{}]", self.place(p)),
+            Rvalue::Discriminant(p) => format!(
+                "[\"disc\",{},{}]",
+                self.place(p),
+                esc(&self.cx.ty(self.place_ty(p)))
+            ),
             Rvalue::Aggregate(kind, ops) => {
                 let ops: Vec<String> = ops.iter().map(|o| self.operand(o)).collect();
                 let k = match &**kind {
